@@ -244,6 +244,13 @@ type rec struct {
 	replays []replayInfo
 	unrolled *Case
 	rerunIDs map[int]bool // lambdas that interrupt themselves once
+	firstCtx map[*St]ctxInfo // per state object: the context of the first critical section on it
+	probes   uint64
+}
+
+type ctxInfo struct {
+	ctx context.Context
+	is2 bool
 }
 
 // replayInfo describes a second continuation (Case.Again) of run From from its last checkpoint.
@@ -316,6 +323,13 @@ func (h *rec) yield() {
 	n := atomic.AddUint64(&h.ycount, 1)
 	z := (n + h.yseed) * 0x9E3779B97F4A7C15
 	z ^= z >> 29
+	if z%53 == 0 {
+		// rarely a very long critical section / pause (0.8-2 ms): whatever can run concurrently with
+		// it - a node that was handed another lock for the same state, a handler that takes no lock -
+		// does so while it lasts
+		time.Sleep(time.Duration(800+z>>8%1200) * time.Microsecond)
+		return
+	}
 	switch z % 7 {
 	case 0, 1, 2:
 		runtime.Gosched()
@@ -338,7 +352,46 @@ func (h *rec) execs(ctx context.Context, node int) int {
 	return h.rounds[[3]int{runOf(ctx), node, -1}]
 }
 
-func (h *rec) cs(ctx context.Context, node, kc int, x []KV, s *St) []KV {
+// probe: are all critical sections on one state object protected by ONE lock? While the section
+// of the caller is in progress a ProcessState callback is requested through the context of the
+// first section that was ever handed this state object (another node of the same run). With one
+// lock per state that callback cannot begin before the caller's section has ended; if it does
+// begin, two holders with two mutexes exist for the same state (or the caller holds no lock) -
+// whether or not the nodes of this case happen to collide in time. The probe callback touches
+// nothing; it is given 150us to show up and is otherwise left to run (empty) when the lock is free.
+func (h *rec) probe(ctx context.Context, s *St, is2 bool) {
+	h.mu.Lock()
+	first, known := h.firstCtx[s]
+	if !known {
+		h.firstCtx[s] = ctxInfo{ctx, is2}
+	}
+	h.mu.Unlock()
+	if !known || first.ctx == ctx || atomic.AddUint64(&h.probes, 1)%3 != 0 {
+		return
+	}
+	var inside int32 = 1
+	entered := make(chan struct{})
+	go func() {
+		defer close(entered)
+		seen := func(st *St) {
+			if st == s && atomic.LoadInt32(&inside) == 1 {
+				atomic.StoreInt32(&h.overlap, 1)
+			}
+		}
+		if first.is2 {
+			_ = compose.ProcessState[*St2](first.ctx, func(_ context.Context, st *St2) error { seen((*St)(st)); return nil })
+		} else {
+			_ = compose.ProcessState[*St](first.ctx, func(_ context.Context, st *St) error { seen(st); return nil })
+		}
+	}()
+	select {
+	case <-entered:
+	case <-time.After(150 * time.Microsecond):
+	}
+	atomic.StoreInt32(&inside, 0)
+}
+
+func (h *rec) cs(ctx context.Context, node, kc int, x []KV, s *St, is2 bool) []KV {
 	if h.rerunIDs[node] && kc != kPre {
 		// a node that interrupts itself: the ProcessState calls and the post-handler belong to
 		// the execution of the body in progress / just finished (an interrupted attempt has
@@ -353,6 +406,7 @@ func (h *rec) cs(ctx context.Context, node, kc int, x []KV, s *St) []KV {
 		atomic.StoreInt32(&h.overlap, 1)
 	}
 	s.Busy = true
+	h.probe(ctx, s, is2)
 	h.yield()
 	seq := atomic.AddInt64(&h.seq, 1)
 	cd := code(node, kc)
@@ -666,6 +720,11 @@ func asSt[S any](s S) *St {
 	return nil
 }
 
+func isSt2[S any](s S) bool {
+	_, ok := any(s).(*St2)
+	return ok
+}
+
 var errInjected = errors.New("c11: injected handler failure")
 
 func handlerOpts[S any](h *rec, n NodeSpec, pre bool) compose.GraphAddNodeOpt {
@@ -685,7 +744,7 @@ func handlerOpts[S any](h *rec, n NodeSpec, pre bool) compose.GraphAddNodeOpt {
 			if err != nil {
 				return nil, err
 			}
-			return schema.StreamReaderFromArray([]M{toM(h.cs(ctx, id, kc, fromM(m), asSt(s)))}), fail
+			return schema.StreamReaderFromArray([]M{toM(h.cs(ctx, id, kc, fromM(m), asSt(s), isSt2(s)))}), fail
 		}
 		if pre {
 			return compose.WithStreamStatePreHandler(f)
@@ -693,7 +752,7 @@ func handlerOpts[S any](h *rec, n NodeSpec, pre bool) compose.GraphAddNodeOpt {
 		return compose.WithStreamStatePostHandler(f)
 	}
 	f := func(ctx context.Context, in M, s S) (M, error) {
-		return toM(h.cs(ctx, id, kc, fromM(in), asSt(s))), fail
+		return toM(h.cs(ctx, id, kc, fromM(in), asSt(s), isSt2(s))), fail
 	}
 	if pre {
 		return compose.WithStatePreHandler(f)
@@ -752,7 +811,7 @@ func (h *rec) nodeOpts(c *Case, gi int, n NodeSpec) []compose.GraphAddNodeOpt {
 
 func processState[S any](h *rec, ctx context.Context, id, kc int, x *[]KV, fail error) error {
 	return compose.ProcessState[S](ctx, func(ctx context.Context, s S) error {
-		*x = h.cs(ctx, id, kc, *x, asSt(s))
+		*x = h.cs(ctx, id, kc, *x, asSt(s), isSt2(s))
 		return fail
 	})
 }
@@ -1170,7 +1229,7 @@ func (c *Case) execute() (o Obs, hang bool) {
 		_ = compose.RegisterSerializableType[St2]("c11_state2")
 	})
 	h := &rec{yseed: c.Yield, mods: map[int][]int{}, rounds: map[[3]int]int{}, gens: map[int]int64{}, unrolled: c.unroll(),
-		rerunIDs: map[int]bool{}}
+		rerunIDs: map[int]bool{}, firstCtx: map[*St]ctxInfo{}}
 	for _, g := range c.Forest {
 		for _, n := range g.Nodes {
 			if n.Rerun > 0 && n.Sub < 0 {
